@@ -65,7 +65,7 @@ Lemma ToUint32_spec a : 0 <= lo a -> ToUint32 a = lo a mod 2 ^ 32.
 Proof.
   intros H. unfold ToUint32, wconv, wand.
   replace (wshr 64 (maxu 64) 32) with (2 ^ 32 - 1) by (vm_compute; reflexivity).
-  rewrite Z.land_comm, land_ones_mod by lia. unfold wrap. apply Z.mod_mod. lia.
+  rewrite Z.land_comm, land_ones_mod by lia. rewrite wrap_mod by lia. apply Z.mod_mod. lia.
 Qed.
 
 Lemma ToUint32_small a : 0 <= lo a < 2 ^ 32 -> ToUint32 a = lo a.
